@@ -66,6 +66,19 @@ Definition body_closed_end (s : list rd) : bool :=
 Definition multi_dom (srcs : list (list rd * bool)) : bool :=
   forallb (fun sc : list rd * bool => negb (body_closed_end (fst sc))) srcs.
 
+(* No read error anywhere in a script - not only its first one: a reader that recovers may report
+   more than one - is http.ErrBodyReadAfterClose. *)
+Definition clean_item (x : rd) : bool :=
+  match x with
+  | Fail k | DataFail _ k | DataErr _ k => negb (is_body_closed k)
+  | _ => true
+  end.
+
+Definition clean (s : list rd) : bool := forallb clean_item s.
+
+Definition multi_clean (srcs : list (list rd * bool)) : bool :=
+  forallb (fun sc : list rd * bool => clean (fst sc)) srcs.
+
 Definition expected_closes (srcs : list (list rd * bool)) : list nat :=
   map (fun sc : list rd * bool => if snd sc then 1 else 0) srcs.
 
@@ -83,6 +96,37 @@ Definition multi_oracle (srcs : list (list rd * bool)) (out : list N) (e : err)
   negb (multi_dom srcs) ||
   eqb_listN out (fst (multi_expect srcs)) && err_eqb e (snd (multi_expect srcs)) &&
   eqb_listnat closes_after (expected_closes srcs).
+
+(* ... under ANY use of the wrapper - any sequence of Read and WriteTo calls, going on after
+   errors or not, with destinations that fail - followed by Close: every closable source has been
+   closed exactly once.  (Sources none of whose read errors is http.ErrBodyReadAfterClose.) *)
+Definition multi_use_spec (srcs : list (list rd * bool)) (closes_after : list nat) : Prop :=
+  closes_after = expected_closes srcs.
+
+Definition multi_use_oracle (srcs : list (list rd * bool)) (closes_after : list nat) : bool :=
+  negb (multi_clean srcs) || eqb_listnat closes_after (expected_closes srcs).
+
+(* what the calls delivered up to and including the first one that reported something *)
+Fixpoint upto_err (outs : list (list N * err)) : list N * option err :=
+  match outs with
+  | [] => ([], None)
+  | (bs, ENil) :: t => let '(b, e) := upto_err t in (bs ++ b, e)
+  | (bs, e) :: _ => (bs, Some e)
+  end.
+
+(* ... for any mix of Read and WriteTo calls (non-empty buffers, destinations that do not fail):
+   the stream, then its expected end, at the first call that reports anything but nil *)
+Definition multi_stream_spec (srcs : list (list rd * bool)) (outs : list (list N * err)) : Prop :=
+  match upto_err outs with
+  | (o, Some e) => o = fst (multi_expect srcs) /\ e = snd (multi_expect srcs)
+  | (o, None) => exists rest, fst (multi_expect srcs) = o ++ rest
+  end.
+
+Definition multi_stream_oracle (srcs : list (list rd * bool)) (outs : list (list N * err)) : bool :=
+  match upto_err outs with
+  | (o, Some e) => eqb_listN o (fst (multi_expect srcs)) && err_eqb e (snd (multi_expect srcs))
+  | (o, None) => prefixb o (fst (multi_expect srcs))
+  end.
 
 (* ... when the consumer stopped early and then called Close: a prefix of the stream, and every
    closable source - finished or not - closed exactly once. *)
